@@ -5,6 +5,7 @@ so its result cannot depend on earlier calls through the module's own variables.
 from __future__ import annotations
 
 import ast
+from typing import Dict, List
 
 import z3
 
@@ -60,6 +61,12 @@ def writes_of(fn: ast.FunctionDef, mod_names):
                 root = root.value
             if isinstance(root, ast.Name) and root.id in mod_names and (root.id not in local or root.id in declared_global):
                 out.append((n.lineno, f"mutates module-level {root.id} via .{n.func.attr}()"))
+    # memoising decorators: every caller gets the SAME result object back
+    for d in fn.decorator_list:
+        dn = d.func if isinstance(d, ast.Call) else d
+        name = dn.id if isinstance(dn, ast.Name) else (dn.attr if isinstance(dn, ast.Attribute) else "")
+        if name.endswith("cache") or name.endswith("cached_property"):
+            out.append((fn.lineno, f"is memoised by @{name} (callers share one result object)"))
     # mutable default arguments that are mutated
     for a, d in zip(reversed(fn.args.args), reversed(fn.args.defaults)):
         if isinstance(d, (ast.Dict, ast.List, ast.Set)):
@@ -67,6 +74,84 @@ def writes_of(fn: ast.FunctionDef, mod_names):
                 if isinstance(n, ast.Call) and isinstance(n.func, ast.Attribute) and n.func.attr in MUTATORS and isinstance(n.func.value, ast.Name) and n.func.value.id == a.arg:
                     out.append((n.lineno, f"mutates mutable default argument {a.arg}"))
     return out
+
+
+TOTAL_ENCODERS = {"tuple", "bytes", "frozenset", "repr", "str", "float", "int", "bool", "complex"}
+TOTAL_METHODS = {"tobytes", "tostring", "tolist", "items", "serialize"}
+
+
+def _in_full(param: str, key: ast.AST) -> bool:
+    """does the key contain the WHOLE value of the parameter (not its length, an end point or another projection)?"""
+    if isinstance(key, ast.Name):
+        return key.id == param
+    if isinstance(key, ast.Tuple):
+        return any(_in_full(param, e) for e in key.elts)
+    if isinstance(key, ast.Call):
+        f = key.func
+        if isinstance(f, ast.Name) and f.id in TOTAL_ENCODERS and len(key.args) == 1 and not key.keywords:
+            return _in_full(param, key.args[0])
+        if isinstance(f, ast.Name) and f.id == "tuple" and key.args and isinstance(key.args[0], ast.Call) and isinstance(key.args[0].func, ast.Name) and key.args[0].func.id == "map" and len(key.args[0].args) == 2:
+            return _in_full(param, key.args[0].args[1])
+        if isinstance(f, ast.Attribute) and f.attr in TOTAL_METHODS and not key.args:
+            return _in_full(param, f.value)
+    return False
+
+
+def memo_is_complete(module: str, fn: ast.FunctionDef, cache: str, self_attr: bool = False):
+    """Is every write of fn to the cache `cache` (a module-level dict, or `self.<cache>` if self_attr) a memoisation under a key
+    that determines the result?  Returns (True, note) / (False, why) / (None, why-not-a-memo-pattern)."""
+    me = fn.args.args[0].arg if (self_attr and fn.args.args) else None
+
+    def is_cache(node: ast.AST) -> bool:
+        if self_attr:
+            return isinstance(node, ast.Attribute) and node.attr == cache and isinstance(node.value, ast.Name) and node.value.id == me
+        return isinstance(node, ast.Name) and node.id == cache
+    keys: List[ast.AST] = []
+    for n in ast.walk(fn):
+        if isinstance(n, ast.Global) and cache in n.names and not self_attr:
+            return None, f"rebinds the global {cache}"
+        if isinstance(n, (ast.Assign, ast.AnnAssign, ast.AugAssign)):
+            for t in (n.targets if isinstance(n, ast.Assign) else [n.target]):
+                if is_cache(t) and not (self_attr and isinstance(getattr(n, "value", None), (ast.Dict,)) and not n.value.keys):
+                    return None, f"rebinds {cache} itself"
+                if isinstance(t, ast.Subscript) and is_cache(t.value):
+                    if isinstance(n, ast.AugAssign):
+                        return None, "updates a cache entry in place"
+                    keys.append(t.slice)
+        if isinstance(n, ast.Call) and isinstance(n.func, ast.Attribute) and is_cache(n.func.value) and n.func.attr in MUTATORS and n.func.attr != "clear":
+            return None, f"mutates {cache} via .{n.func.attr}()"
+    if not keys:
+        return None, f"no entry of {cache} is stored"
+    params = [a.arg for a in fn.args.posonlyargs + fn.args.args + fn.args.kwonlyargs if a.arg not in ("self", "cls")]
+    assigned: Dict[str, List[ast.AST]] = {}
+    for n in ast.walk(fn):
+        if isinstance(n, (ast.Assign, ast.AnnAssign)) and getattr(n, "value", None) is not None:
+            for t in (n.targets if isinstance(n, ast.Assign) else [n.target]):
+                if isinstance(t, ast.Name):
+                    assigned.setdefault(t.id, []).append(n.value)
+    used = {x.id for x in ast.walk(fn) if isinstance(x, ast.Name) and isinstance(x.ctx, ast.Load)}
+    rebound = {x.id for x in ast.walk(fn) if isinstance(x, ast.Name) and isinstance(x.ctx, (ast.Store, ast.Del))} & set(params)
+    if rebound:
+        return False, f"parameter(s) {sorted(rebound)} are reassigned inside the function, so their names in the key need not denote the arguments"
+    for k in keys:
+        k_res = k
+        if isinstance(k, ast.Name) and len(assigned.get(k.id, [])) == 1 and k.id not in params:
+            k_res = assigned[k.id][0]
+        for p_ in params:
+            if p_ in used and not _in_full(p_, k_res):
+                return False, f"the cache key `{ast.unparse(k_res)[:80]}` does not contain the whole of parameter `{p_}`"
+    if not self_attr:
+        mod_names = module_level_names(module)
+        tree = core.module_ast(module)
+        mutable_globals = set()
+        for n in tree.body:
+            if isinstance(n, (ast.Assign, ast.AnnAssign)) and isinstance(getattr(n, "value", None), (ast.Dict, ast.List, ast.Set, ast.Call, ast.ListComp, ast.DictComp)):
+                for t in (n.targets if isinstance(n, ast.Assign) else [n.target]):
+                    if isinstance(t, ast.Name):
+                        mutable_globals.add(t.id)
+        for g in sorted((used & mod_names & mutable_globals) - {cache}):
+            return False, f"the result also depends on the module-level table `{g}`, which is not part of the cache key"
+    return True, f"memoised under a key that contains every parameter in full"
 
 
 def check(sess: Session, module: str, functions, allowed=()):
@@ -78,7 +163,20 @@ def check(sess: Session, module: str, functions, allowed=()):
             sess.unsupported(str(ex))
             continue
         w = [x for x in writes_of(fn, mod_names) if not any(a in x[1] for a in allowed)]
+        notes = []
+        if w:
+            # a memo cache under a key that determines the result is not hidden state in the sense of the contracts that lean on this
+            caches = {d.split("module-level ")[1].split(" ")[0] for _, d in w if "module-level " in d}
+            if caches and all("module-level " in d for _, d in w):
+                verdicts = {c: memo_is_complete(module, fn, c) for c in caches}
+                if all(v[0] is True for v in verdicts.values()):
+                    notes = [f"{c}: {v[1]}" for c, v in verdicts.items()]
+                    w = []
+                else:
+                    w = w + [(fn.lineno, f"{c}: {v[1]}") for c, v in verdicts.items() if v[0] is not True]
         ob = sess.check("frame", [], z3.BoolVal(not w), 0, label=f"{module}:{name} writes no module-level state")
+        if notes:
+            sess.assumptions.append(f"{module}:{name} memoises its result ({'; '.join(notes)}); cached results are assumed not to be modified in place by their users")
         if w:
             ob.detail = "; ".join(f"{d} at L{ln}" for ln, d in w[:4])
             ob.formula = ob.detail
@@ -138,11 +236,111 @@ def observer_writes(fn: ast.FunctionDef):
     return out
 
 
+def instance_cache_verdict(module: str, cls: ast.ClassDef, method: ast.FunctionDef, writes):
+    """an observer stores through self: is it a cache that cannot go stale?  (True, note) / (False, why)"""
+    me = method.args.args[0].arg
+    attrs = set()
+    for x in ast.walk(method):
+        tgt = None
+        if isinstance(x, (ast.Attribute, ast.Subscript)) and isinstance(x.ctx, (ast.Store, ast.Del)):
+            tgt = x
+        elif isinstance(x, ast.Call) and isinstance(x.func, ast.Attribute) and x.func.attr in SELF_MUTATORS:
+            tgt = x.func.value
+        if tgt is None:
+            continue
+        r = tgt
+        chain = []
+        while isinstance(r, (ast.Attribute, ast.Subscript)):
+            chain.append(r)
+            r = r.value
+        if isinstance(r, ast.Name) and r.id == me and chain:
+            first = chain[-1]
+            if isinstance(first, ast.Attribute):
+                attrs.add(first.attr)
+    if not attrs:
+        return False, "stores through self in a way that is not an attribute cache"
+    for a in sorted(attrs):
+        # (a) the key determines the cached value
+        whole = any(isinstance(x, (ast.Assign, ast.AnnAssign)) and any(isinstance(t, ast.Attribute) and t.attr == a and isinstance(t.value, ast.Name) and t.value.id == me
+                                                                        for t in (x.targets if isinstance(x, ast.Assign) else [x.target])) for x in ast.walk(method))
+        params = [p_.arg for p_ in method.args.posonlyargs[0:] + method.args.args[1:] + method.args.kwonlyargs]
+        if whole:
+            used = {x.id for x in ast.walk(method) if isinstance(x, ast.Name) and isinstance(x.ctx, ast.Load)}
+            if any(p_ in used for p_ in params):
+                return False, f"self.{a} holds one cached value although the result depends on the arguments {params}"
+        else:
+            ok, why = memo_is_complete(module, method, a, self_attr=True)
+            if ok is not True:
+                return False, f"self.{a}: {why}"
+        # (c) the cached value depends on this object only: no method of a live sub-object (a child found through self) is called,
+        #     neither here nor in the methods of self this one calls
+        from .frames import _Kinds, PART, COPYING
+        methods = {f.name: f for f in cls.body if isinstance(f, ast.FunctionDef)}
+        todo, seen_m = [method], set()
+        reads = set()
+        while todo:
+            mth = todo.pop()
+            if mth.name in seen_m or not mth.args.args:
+                continue
+            seen_m.add(mth.name)
+            sname = mth.args.args[0].arg
+            K = _Kinds(mth, sname, PART)
+            for x in ast.walk(mth):
+                if isinstance(x, ast.Attribute) and isinstance(x.value, ast.Name) and x.value.id == sname and isinstance(x.ctx, ast.Load) and x.attr != a:
+                    reads.add(x.attr)
+                if isinstance(x, ast.Call) and isinstance(x.func, ast.Attribute):
+                    base = x.func.value
+                    if isinstance(base, ast.Name) and base.id == sname:
+                        if x.func.attr in methods and len(seen_m) < 6:
+                            todo.append(methods[x.func.attr])
+                        continue
+                    if isinstance(base, ast.Attribute) and isinstance(base.value, ast.Name) and base.value.id == sname:
+                        continue                      # a method of one of self's own containers / arrays (self._mask.get, self._elements.index, ...)
+                    if K.of(base).split(":")[-1] == PART and x.func.attr not in SELF_MUTATORS and x.func.attr not in ("get", "keys", "values", "items", "copy", "index", "count"):
+                        return False, f"the cached value is computed from other objects' state ({ast.unparse(x.func)[:50]} in {mth.name}), whose changes do not invalidate self.{a}"
+        # (b) every mutator of the class invalidates the cache on every exit
+        for m in [f for f in cls.body if isinstance(f, ast.FunctionDef) and f is not method and f.name != "__init__"]:
+            if not m.args.args:
+                continue
+            mm = m.args.args[0].arg
+            mutates_other = False
+            for x in ast.walk(m):
+                tgt = None
+                if isinstance(x, (ast.Attribute, ast.Subscript)) and isinstance(x.ctx, (ast.Store, ast.Del)):
+                    tgt = x
+                elif isinstance(x, ast.Call) and isinstance(x.func, ast.Attribute) and x.func.attr in SELF_MUTATORS:
+                    tgt = x.func.value
+                if tgt is None:
+                    continue
+                r, first = tgt, None
+                while isinstance(r, (ast.Attribute, ast.Subscript)):
+                    first = r
+                    r = r.value
+                if isinstance(r, ast.Name) and r.id == mm and isinstance(first, ast.Attribute) and first.attr != a and first.attr in reads:
+                    mutates_other = True          # changes something the cached computation reads
+            if not mutates_other:
+                continue
+            inval = None
+            for st_ in m.body:
+                for x in ast.walk(st_):
+                    hit = (isinstance(x, ast.Call) and isinstance(x.func, ast.Attribute) and x.func.attr == "clear" and isinstance(x.func.value, ast.Attribute) and x.func.value.attr == a) or \
+                          (isinstance(x, ast.Attribute) and x.attr == a and isinstance(x.ctx, (ast.Store, ast.Del)) and isinstance(x.value, ast.Name) and x.value.id == mm)
+                    if hit and (st_ is x or isinstance(st_, (ast.Expr, ast.Assign, ast.AnnAssign, ast.Delete))):
+                        inval = st_.lineno if inval is None else min(inval, st_.lineno)
+            if inval is None:
+                return False, f"{m.name}() changes the object but does not invalidate self.{a}"
+            early = [x.lineno for x in ast.walk(m) if isinstance(x, ast.Return) and x.lineno < inval]
+            if early:
+                return False, f"{m.name}() can return (line {early[0]}) before it invalidates self.{a} (line {inval})"
+    return True, f"caches in self.{{{', '.join(sorted(attrs))}}} under a complete key, invalidated by every mutator"
+
+
 def target_observers(modules, title):
     """observer methods (get_*, to_*, are_*, is_*, generate_*, __repr__/__str__/__len__/__iter__/__contains__, to_string,
     serialize, _impedance, _sympy) of every class in the given modules store nothing through `self`: what they return is a
-    function of the object's current state, never of an earlier call (no memoised identifiers, subsets or strings that a later
-    mutation leaves stale)"""
+    function of the object's current state, never of an earlier call.  The one exception that is accepted is a cache that cannot
+    go stale: keyed by the whole of every argument, computed from this object's own state only, and invalidated -- before any
+    early return -- by every method of the class that changes the object."""
     import re
     pat = re.compile(OBSERVER)
 
@@ -156,13 +354,19 @@ def target_observers(modules, title):
             for cls in [c for c in tree.body if isinstance(c, ast.ClassDef)]:
                 bad = []
                 k = 0
-                for fn in [f for f in cls.body if isinstance(f, ast.FunctionDef) and pat.search(f.name)]:
+                for fn in [f for f in cls.body if isinstance(f, ast.FunctionDef) and (pat.search(f.name) or f.name.startswith("_get"))]:
                     k += 1
-                    for ln, d in observer_writes(fn):
-                        bad.append(f"{fn.name}: {d} at L{ln}")
+                    ws = observer_writes(fn)
+                    if not ws:
+                        continue
+                    ok, why = instance_cache_verdict(module, cls, fn, ws)
+                    if ok:
+                        sess.assumptions.append(f"{module}:{cls.name}.{fn.name} {why}")
+                    else:
+                        bad.append(f"{fn.name}: {ws[0][1]} at L{ws[0][0]} -- {why}")
                 if k:
                     n += k
-                    ob = sess.check("frame", [], z3.BoolVal(not bad), 0, label=f"{module}:{cls.name}: its {k} observer methods store nothing through self" if False else f"{module}:{cls.name}: observer methods store nothing through self")
+                    ob = sess.check("frame", [], z3.BoolVal(not bad), 0, label=f"{module}:{cls.name}: observer methods store nothing through self")
                     if bad:
                         ob.detail = "; ".join(bad[:4])
                         ob.formula = ob.detail
